@@ -171,6 +171,26 @@ pub fn cases(tier: &str) -> Vec<Value> {
     out.push(json!({"engine":"enet","check":"c16","kind":"volume","pattern":"burst-then-quiet"}));
     out.push(json!({"engine":"enet","check":"c16","kind":"volume","pattern":"steady"}));
     out.push(json!({"engine":"enet","check":"c16","kind":"volume","pattern":"two-sources"}));
+    // every arrival/advance history of length <= 3 (thorough 4) over 9 events
+    let depth = if tier == "thorough" { 4 } else { 3 };
+    let mut hs: Vec<Vec<usize>> = vec![vec![]];
+    for _ in 0..depth {
+        let mut next = vec![];
+        for h in &hs {
+            for e in 0..9usize {
+                let mut g = h.clone();
+                g.push(e);
+                next.push(g);
+            }
+        }
+        for h in &next {
+            // histories ending in an advance observe nothing new
+            if *h.last().unwrap() < 6 {
+                out.push(json!({"engine":"enet","check":"c16","kind":"hist","events":h}));
+            }
+        }
+        hs = next;
+    }
     for cc in ["same", "other"] {
         for a in ["same", "other"] {
             for s in ["same", "other"] {
@@ -186,6 +206,21 @@ pub fn cases(tier: &str) -> Vec<Value> {
         }
     }
     out
+}
+
+/// a name of about `len` presentation octets (<= 253) ending in `base`
+fn long_name(base: &str, len: usize) -> String {
+    let mut n = base.to_string();
+    while n.len() + 2 <= len.min(253) {
+        let l = (len.min(253) - n.len() - 1).min(63);
+        n = format!("{}.{}", "x".repeat(l), n);
+    }
+    n
+}
+
+fn sized_query(id: u16, name: &str, edns: bool) -> Vec<u8> {
+    let opt = if edns { Some(rd::opt_rr(1232, 0, 0, false, vec![])) } else { None };
+    rd::encode(&rd::query(id, &rd::name(name), rd::T_A, 1, true, opt), false)
 }
 
 fn refused_query(id: u16, name: &str, cookie: Option<Vec<u8>>) -> Vec<u8> {
@@ -214,6 +249,97 @@ fn blast(rig: &mut Rig, c: &mut UdpClient, dst: std::net::SocketAddr, n: usize, 
     let got = c.rx.len() - before;
     let bytes: usize = c.rx[before..].iter().map(|(b, _)| b.len()).sum();
     (got, bytes)
+}
+
+/// One arrival/advance history on the live service, reply sizes varied through the query name
+/// and EDNS.  Events: 0..5 = a burst of K queries with (name length, EDNS) = (short,120,240)x(yes,no);
+/// 6,7,8 = advance 1 s, 100 s, P+1 s.
+const HIST_K: usize = 6;
+const HIST_LENS: [usize; 3] = [0, 120, 240];
+fn run_hist(case: &Value) -> CaseResult {
+    let (b, r) = RateLimiter::params();
+    let (b, r) = (b as usize, r as usize);
+    let p = (b / r) as u64;
+    let mut rig = match start_rig(vec!["127.0.0.1".into()]) {
+        Ok(r) => r,
+        Err(e) => return CaseResult::machinery(e),
+    };
+    let dst = rig.listen_addr(0);
+    let mut res = CaseResult::ok("");
+    let mk = |oracle: &str, what: String| Violation::new(oracle, what, case.clone()).sig("part", "live-hist");
+    let mut c = match UdpClient::new("127.0.0.2".parse().unwrap()) {
+        Ok(c) => c,
+        Err(e) => return CaseResult::machinery(e),
+    };
+    let evs: Vec<usize> = case["events"].as_array().map(|a| a.iter().filter_map(|x| x.as_u64()).map(|x| x as usize).collect()).unwrap_or_default();
+    let mut now = 0u64;
+    let mut last_arrival: Option<u64> = None;
+    let mut sent: Vec<(u64, usize)> = vec![]; // (virtual second, octets) of every REFUSED received
+    let mut cls = String::new();
+    let mut qn = 0u16;
+    for (step, e) in evs.iter().enumerate() {
+        if *e >= 6 {
+            let d = [1, 100, p + 1][*e - 6];
+            rig.advance(Duration::from_secs(d));
+            now += d;
+            cls.push('t');
+            continue;
+        }
+        let (len, edns) = (HIST_LENS[*e % 3], *e < 3);
+        for k in 0..HIST_K {
+            qn += 1;
+            let before = c.rx.len();
+            let q = sized_query(qn, &long_name(&format!("h{qn}.example"), len), edns);
+            let _ = c.send(dst, &q);
+            rig.pump(6);
+            rig.settle(|_| false);
+            c.poll();
+            rig.pump(10);
+            c.poll();
+            let got = c.rx.len() - before;
+            for (bytes, _) in &c.rx[before..] {
+                sent.push((now, bytes.len()));
+                if let Ok((m, _)) = rd::decode(bytes) {
+                    if m.rcode() != 5 {
+                        res.violations.push(mk("refused-rcode", format!("expected REFUSED, got rcode {}", m.rcode())));
+                    }
+                }
+                if bytes.len() < q.len() {
+                    // the octet bound below presumes reply >= query (the cost 2*reply-query >= reply)
+                    return CaseResult::machinery(format!("REFUSED of {} octets for a query of {} octets: harness assumption reply >= query broken", bytes.len(), q.len()));
+                }
+            }
+            if got > 1 {
+                res.violations.push(mk("duplicate-reply", format!("{got} replies to one query")));
+            }
+            let idle = last_arrival.map(|t| now - t >= p).unwrap_or(true);
+            if idle && k == 0 && got != 1 {
+                res.violations.push(mk("quiet-client-silence", format!("events {evs:?} step {step}: source silent for {} (refill period {p}s) got {got} replies to a refused query with a {len}-octet name (edns {edns})", last_arrival.map(|t| format!("{}s", now - t)).unwrap_or("ever".into()))));
+            }
+            cls.push(if got == 1 { 'G' } else { 'd' });
+            last_arrival = Some(now);
+        }
+    }
+    // every window: octets of REFUSED sent to this source <= 2B + 2R x (dt+1)
+    'w: for i in 0..sent.len() {
+        let mut sum = 0usize;
+        for j in i..sent.len() {
+            sum += sent[j].1;
+            let dt = (sent[j].0 - sent[i].0) as usize;
+            let bound = 2 * b + 2 * r * (dt + 1);
+            if sum > bound {
+                res.violations.push(mk("volume-bound", format!("events {evs:?}: {sum} octets of REFUSED ({} replies) sent to one source within {dt}s, bound 2x{b}+2x{r}x({dt}+1)={bound}", j - i + 1)));
+                break 'w;
+            }
+        }
+    }
+    let ps = rig.stop();
+    if let Some(p) = ps.first() {
+        res.violations.push(mk("panic", format!("service task panicked: {} at {}", p.msg, panics::short_loc(&p.loc))));
+    }
+    res.class = format!("hist:{}", cls.chars().filter(|c| *c != 't').collect::<String>());
+    res.stats = json!({"live_cases": 1});
+    res
 }
 
 fn run_volume(case: &Value) -> CaseResult {
@@ -414,6 +540,7 @@ fn run_cookie(case: &Value) -> CaseResult {
 pub fn run_case(case: &Value) -> CaseResult {
     match case["kind"].as_str() {
         Some("volume") => run_volume(case),
+        Some("hist") => run_hist(case),
         _ => run_cookie(case),
     }
 }
@@ -444,7 +571,7 @@ pub fn run(tier: &str, replay: Option<Value>) -> ! {
     rep.cov("traces_validated_against_impl", n + agg.executions);
     rep.cov("evaluations", n + agg.executions);
     rep.cov("distinct_nontrivial", classes + agg.classes.len() as u64);
-    rep.cov("rule", "limiter: every history of length <= 6 (thorough 8) over {arrival with cost min, min+100, capacity, capacity+1; advance 1, 10, P-1, P, P+1, 2P s} (P = capacity/rate, read from the code) executed on a fresh real IpRateLimiter under the virtual clock; states = distinct grant/deny patterns. live: 3 volume patterns and the full cookie matrix (client cookie x source x server address x 0/1/2 key rotations x cookie length) on the real service");
+    rep.cov("rule", "limiter: every history of length <= 6 (thorough 8) over {arrival with cost min, min+100, capacity, capacity+1; advance 1, 10, P-1, P, P+1, 2P s} (P = capacity/rate, read from the code) executed on a fresh real IpRateLimiter under the virtual clock; states = distinct grant/deny patterns. live: every arrival/advance history of length <= 3 (thorough 4) over {burst of 6 queries with name length short/120/240 x EDNS yes/no; advance 1, 100, P+1 s} on a fresh real service, REFUSED datagrams counted and sized at the client, every window judged in octets; 3 long volume patterns; and the full cookie matrix (client cookie x source x server address x 0/1/2 key rotations x cookie length) on the real service");
     rep.cov("exhaustive", true);
     rep.cov("live_executions", agg.executions);
     rep.cov("live_classes", json!(agg.classes));
